@@ -548,6 +548,67 @@ def _negate(t):
     return ast.copy_location(ast.UnaryOp(op=ast.Not(), operand=t), t)
 
 
+_ITER_WRAPPERS = ('range', 'enumerate', 'zip', 'sorted', 'reversed', 'filter',
+                  'map', 'list', 'set', 'tuple', 'iter', 'frozenset', 'dict',
+                  'getattr', 'len')
+
+
+def _bind_loop_iterables(tree):
+    """``for x in f(...)`` is ``x__it = f(...)`` then ``for x in x__it``:
+    a collection that is fetched and walked is the same whether or not it
+    was given a name in between (views of a local - .items() and the like -
+    and the builtin wrappers are left where they are)."""
+    for fn in ast.walk(tree):
+        if not isinstance(fn, (ast.FunctionDef, ast.AsyncFunctionDef)):
+            continue
+        names = {n.id for n in ast.walk(fn) if isinstance(n, ast.Name)} | {
+            a.arg for a in ast.walk(fn) if isinstance(a, ast.arg)}
+        for node in ast.walk(fn):
+            for fld in ('body', 'orelse', 'finalbody'):
+                blk = getattr(node, fld, None)
+                if not (isinstance(blk, list) and blk and isinstance(
+                        blk[0], ast.stmt)):
+                    continue
+                i = 0
+                while i < len(blk):
+                    st = blk[i]
+                    i += 1
+                    if not (isinstance(st, ast.For) and isinstance(
+                            st.iter, ast.Call)):
+                        continue
+                    fnc = st.iter.func
+                    if isinstance(fnc, ast.Name) and fnc.id in \
+                            _ITER_WRAPPERS:
+                        continue
+                    if isinstance(fnc, ast.Attribute) and (fnc.attr in (
+                            'items', 'keys', 'values', 'product', 'split',
+                            'getall', 'get', 'chain', 'fetchall', 'all')
+                            or not st.iter.args and not st.iter.keywords):
+                        continue
+                    base = None
+                    for x in ast.walk(st.target):
+                        if isinstance(x, ast.Name):
+                            base = x.id
+                            break
+                    if base is None:
+                        continue
+                    nm = base + '__it'
+                    k = 1
+                    while nm in names:
+                        k += 1
+                        nm = '%s__it%d' % (base, k)
+                    names.add(nm)
+                    a = ast.Assign(
+                        targets=[ast.copy_location(
+                            ast.Name(id=nm, ctx=ast.Store()), st.iter)],
+                        value=st.iter)
+                    ast.copy_location(a, st)
+                    st.iter = ast.copy_location(
+                        ast.Name(id=nm, ctx=ast.Load()), st.iter)
+                    blk.insert(i - 1, a)
+                    i += 1
+
+
 def _tuple_assigns(tree):
     """``a, b = x, y`` with plain names on the left, none of them read on
     the right, is ``a = x`` then ``b = y``."""
@@ -723,6 +784,7 @@ def normalise(tree):
     _conditional_expressions(tree)
     _star_dict_calls(tree)
     _tuple_assigns(tree)
+    _bind_loop_iterables(tree)
     _single_aliases(tree)
     _rebinding_chains(tree)
     changed = True
